@@ -14,11 +14,91 @@ class Unavailable(Exception):
     """the kernel cannot be located or is outside the translator's grammar"""
 
 
+def _is_int0(n: ast.AST) -> bool:
+    return isinstance(n, ast.Constant) and type(n.value) is int and n.value == 0
+
+
+class _Spelling(ast.NodeTransformer):
+    """spellings that cannot change what the code does, brought to one form before any translator looks:
+    `range(0, n)` -> `range(n)`, `enumerate(x, 0)` / `enumerate(x, start=0)` -> `enumerate(x)`, and an annotated
+    assignment `x: T = e` -> `x = e`"""
+
+    def visit_Call(self, node):
+        self.generic_visit(node)
+        if isinstance(node.func, ast.Name) and node.func.id == "range" and len(node.args) == 2 \
+                and not node.keywords and _is_int0(node.args[0]):
+            node.args = node.args[1:]
+        if isinstance(node.func, ast.Name) and node.func.id == "enumerate":
+            if len(node.args) == 2 and not node.keywords and _is_int0(node.args[1]):
+                node.args = node.args[:1]
+            elif len(node.args) == 1 and len(node.keywords) == 1 and node.keywords[0].arg == "start" \
+                    and _is_int0(node.keywords[0].value):
+                node.keywords = []
+        return node
+
+    def visit_AnnAssign(self, node):
+        self.generic_visit(node)
+        if node.value is not None and node.simple:
+            return ast.copy_location(ast.Assign(targets=[node.target], value=node.value), node)
+        return node
+
+
 def parse(relpath: str) -> ast.Module:
     p = SRC / relpath
     if not p.exists():
         raise Unavailable(f"{relpath} missing")
-    return ast.parse(p.read_text())
+    return ast.fix_missing_locations(_Spelling().visit(ast.parse(p.read_text())))
+
+
+_PURE = (ast.Name, ast.Constant, ast.BinOp, ast.UnaryOp, ast.Load, ast.operator, ast.unaryop)
+
+
+def inline_pure_locals(fn: ast.FunctionDef, keep: set[str]) -> ast.FunctionDef:
+    """a copy of `fn` in which every helper local that is bound exactly once, at the top level of the body, to pure
+    arithmetic over names that are never rebound afterwards (and is not one of the names in `keep` the caller
+    looks for) is replaced by its definition where it is read.  `step = e_range/intervals; e0 = m + 10*step` and
+    `e0 = m + 10*(e_range/intervals)` are the same floating-point computation, so a translator that pattern-matches
+    the second also accepts the first."""
+    import copy
+    fn = copy.deepcopy(fn)
+    if any(isinstance(n, (ast.Global, ast.Nonlocal, ast.Delete)) for n in ast.walk(fn)):
+        return fn
+    changed = True
+    while changed:
+        changed = False
+        stores: dict[str, list[int]] = {}
+        for n in ast.walk(fn):
+            if isinstance(n, ast.Name) and isinstance(n.ctx, (ast.Store, ast.Del)):
+                stores.setdefault(n.id, []).append(n.lineno)
+            elif isinstance(n, ast.arg):
+                stores.setdefault(n.arg, [])
+        for idx, st in enumerate(fn.body):
+            if not (isinstance(st, ast.Assign) and len(st.targets) == 1 and isinstance(st.targets[0], ast.Name)):
+                continue
+            name = st.targets[0].id
+            if name in keep or len(stores.get(name, [])) != 1:
+                continue
+            if not all(isinstance(n, _PURE) for n in ast.walk(st.value)):
+                continue
+            free = {n.id for n in ast.walk(st.value) if isinstance(n, ast.Name)}
+            if name in free or any(any(ln >= st.lineno for ln in stores.get(f, [])) for f in free):
+                continue
+            # no read of the name before its definition
+            if any(isinstance(n, ast.Name) and n.id == name and isinstance(n.ctx, ast.Load) and n.lineno < st.lineno
+                   for n in ast.walk(fn)):
+                continue
+            value = st.value
+
+            class Sub(ast.NodeTransformer):
+                def visit_Name(self, node):
+                    if node.id == name and isinstance(node.ctx, ast.Load):
+                        return ast.copy_location(copy.deepcopy(value), node)
+                    return node
+            del fn.body[idx]
+            fn = ast.fix_missing_locations(Sub().visit(fn))
+            changed = True
+            break
+    return fn
 
 
 def find_function(tree: ast.Module, name: str, cls: str | None = None) -> ast.FunctionDef:
